@@ -226,6 +226,23 @@ def oracle_table(ctx, case, impl, origin="table", exact=False, check_cover=True)
                                 "the larger bounding measurement does not receive floor/ceil(gap x factor) days",
                                 dict(inp, group=list(key), interval=[a["date"], b["date"]], got=larger,
                                      expected=[lo, hi]))
+        if ws and all("prev" in w for w in ws):
+            bad = None
+            if ws[0]["prev"] or ws[-1]["next"]:
+                bad = "first row uses the previous / last row the next condition"
+            for a, b in zip(ws, ws[1:]):
+                if b["prev"] == a["next"]:
+                    bad = "previous condition of a row is not the negation of the next condition of the row before"
+                elif a["next"] != (a["rate_num"] < b["rate_num"]):
+                    bad = "next condition is not the exact comparison rate < next rate"
+                if bad:
+                    break
+            if bad:
+                ctx.violate(f"C13:conditions:{mname}:not-complementary-exact-comparisons",
+                            "the two condition columns must be the exact comparisons of neighbouring measured "
+                            "rates and complementary on every pair: " + bad,
+                            dict(inp, group=list(key), rates=[w["rate_num"] / scale for w in ws][:12],
+                                 prev=[w["prev"] for w in ws][:12], next=[w["next"] for w in ws][:12]))
         for w in ws:
             rn = w["rate_num"]
             exp = (rn / scale) * (w["stop"] - w["start"]) * K_TRUE
@@ -359,6 +376,42 @@ def random_table(rng, f, big=False, boundary=False):
     return (mode, f, S, E, SCALE, recs)
 
 
+def near_tie_core(fs):
+    """structured core: every ordered pair of one near-tie family as the two measurements of a site (one
+    site per pair), 40 and 7 days apart"""
+    for base in NEAR_BASES[:2]:
+        fam = [fine(v) for v in near_family(base)]
+        for gap in (40, 7):
+            S = 7300
+            recs = []
+            site = 0
+            for ra in fam:
+                for rb in fam:
+                    site += 1
+                    recs.append((site, -1, -1, S + 3, ra))
+                    recs.append((site, -1, -1, S + 3 + gap, rb))
+            for f in fs:
+                yield (0, f, S, S + 3 + gap + 4, SCALE_FINE, recs)
+
+
+def near_tie_table(rng, f):
+    """random histories whose neighbouring measurements are ties up to rounding (both modes)"""
+    mode = rng.choice([0, 1])
+    S = rng.randint(6000, 9000)
+    E = S + rng.choice([5, 30, 90, 365])
+    recs = []
+    for site in rng.sample(range(1, 40), rng.randint(1, 4)):
+        fam = [fine(v) for v in near_family(rng.choice(NEAR_BASES))] + [0]
+        comps = [(-1, -1)] if mode == 0 else [(1, c) for c in range(1, rng.randint(1, 2) + 1)]
+        for _ in range(rng.randint(2, 6)):
+            d = rng.randint(S, E)
+            for (e, c) in comps:
+                if rng.random() < 0.8:
+                    recs.append((site, e, c, d, rng.choice(fam)))
+    rng.shuffle(recs)
+    return (mode, f, S, E, SCALE_FINE, recs)
+
+
 def dyadic_factor(rng):
     return rng.choice([0.0, 1.0, 0.5, 0.25, 0.75, rng.randint(0, 8) / 8, rng.randint(0, 1024) / 1024,
                        rng.randint(0, 1024) / 1024])
@@ -430,6 +483,12 @@ def run_tables(ctx, cases, exact, origin, style_rng):
         if model is None:
             ctx.disagree("window-table", table_line(case), rep, "impl ok")
             continue
+        mconds = {k: [(bool(w[5]), bool(w[6])) for w in ws] for k, ws in model.items()}
+        iconds = {k: [(w["prev"], w["next"]) for w in ws] for k, ws in impl.items() if ws and all("prev" in w for w in ws)}
+        for k in iconds:
+            if k in mconds and mconds[k] != iconds[k]:
+                ctx.disagree("window-conditions", table_line(case), {str(k): mconds[k][:12]}, {str(k): iconds[k][:12]})
+                break
         if exact:
             mc = {k: [w[:4] for w in ws] for k, ws in model.items()}
             ic = canon_impl(impl)
@@ -470,51 +529,118 @@ def run_tables(ctx, cases, exact, origin, style_rng):
     return impls
 
 
-def failing_pair_table(f, g, c):
-    """a concrete survey table for one interval: gap g, next condition of the earlier row = c"""
+# measured rates as exact multiples of 2^-56: every double in [2^-4, 2^7) is one, so two rates that
+# differ by one ulp, by 1e-12 ... are exact inputs of the model too
+SCALE_FINE = 2 ** 56
+NEAR_DELTAS = [0.0, 1e-12, 1e-9, 1e-8, 0.99e-8, 1.01e-8, 3e-8, 1e-6]
+
+
+def fine(r):
+    n = Fraction(float(r)) * SCALE_FINE
+    assert n.denominator == 1, r
+    return int(n)
+
+
+def near_family(b):
+    """b itself, its two neighbouring doubles, and b +- small differences (below, at and above any tolerance
+    such as numpy.isclose's 1e-8)"""
+    vals = {float(b), math.nextafter(b, math.inf), math.nextafter(b, -math.inf)}
+    for d in NEAR_DELTAS[1:]:
+        vals.add(b + d)
+        vals.add(b - d)
+    return sorted(vals)
+
+
+NEAR_BASES = [0.6, 0.1 + 0.2, 1.7, 0.125 + 1e-3, 10.0]
+# (earlier rate, later rate): clear orderings, exact ties, near ties of both signs
+RATE_PAIRS = [(1.0, 2.0), (2.0, 1.0), (1.0, 1.0), (0.0, 0.0), (0.0, 0.6), (0.6, 0.0)] + \
+    [(a, b) for base in (0.6, 0.1 + 0.2) for a in near_family(base) for b in near_family(base)
+     if a == base or b == base]
+
+
+def failing_pair_table(f, g, pair):
+    """a concrete survey table for one interval: gap g between two measurements with the rates `pair`"""
     S = 7300
-    r1, r2 = (1, 2) if c else (2, 1)
-    return (0, float(f), S, S + 3 + g + 4, SCALE, [(1, -1, -1, S + 3, r1 * SCALE), (1, -1, -1, S + 3 + g, r2 * SCALE)])
+    return (0, float(f), S, S + 3 + g + 4, SCALE_FINE,
+            [(1, -1, -1, S + 3, fine(pair[0])), (1, -1, -1, S + 3 + g, fine(pair[1]))])
+
+
+_PAIR_CONDS = {}
+
+
+def pair_conds(ctx):
+    """the real condition functions on every pair of RATE_PAIRS (once per run); pairs on which they are
+    not the exact comparisons / not complementary become concrete tables for the oracle right away"""
+    if "c" not in _PAIR_CONDS:
+        conds, edge = W.pair_conditions(RATE_PAIRS)
+        _PAIR_CONDS["c"] = conds
+        bad = []
+        for (ra, rb), (nx, pv), (p0, n1) in zip(RATE_PAIRS, conds, edge):
+            ctx.evaluations += 1
+            if nx != (ra < rb) or pv != (rb <= ra) or pv == nx or p0 or n1:
+                bad.append((ra, rb))
+        ctx.count("rate_pairs_through_the_real_condition_functions", len(RATE_PAIRS))
+        ctx.count("rate_pairs_near_ties", sum(1 for a, b in RATE_PAIRS if a != b and abs(a - b) <= 1e-6))
+        for (ra, rb) in bad[:6]:
+            for f, g in ((1.0, 40), (0.0, 40), (0.25, 7)):
+                case = failing_pair_table(f, g, (ra, rb))
+                impl = W.impl_report(case)
+                attach_dates(case, impl)
+                if oracle_table(ctx, case, impl, origin="rate-pair-conditions", exact=True) == 0:
+                    ctx.broke("rate pair conditions", f"conditions of ({ra!r}, {rb!r}) are not the exact comparisons but "
+                                                      f"the table oracle accepts {case}")
+    return _PAIR_CONDS["c"]
 
 
 def confront(ctx, fs, label, share_ref=True):
     """float confrontation on the real helpers for the factors `fs` (array-factor calls, every gap
-    0..G_MAX, both orderings).  Returns list of failing (f, gap, cond, kind)."""
+    0..G_MAX) x every pair of measured rates in RATE_PAIRS, whose two conditions come from the REAL
+    calculate_next_condition / calculate_prev_condition.  Returns list of failing (f, gap, pair, kind)."""
     drv = core.LeanDriver("drv_window")
+    conds = pair_conds(ctx)
+    combos = sorted(set(conds))                      # distinct (next of earlier, prev of later)
+    reps = {c: [p for p, cc in zip(RATE_PAIRS, conds) if cc == c] for c in combos}
     failing = []
     chunk = 50
     n_nontrivial = 0
     n_float_vs_exact = 0
     for i in range(0, len(fs), chunk):
         part = fs[i:i + chunk]
-        gaps, eT, eF, sT, sF = W.helper_offsets_many(part, 0, G_MAX)
+        gaps, e, st = W.helper_offsets_pairs(part, combos, 0, G_MAX)
         ng = len(gaps)
-        ctx.evaluations += 2 * ng * len(part)
+        ctx.evaluations += len(RATE_PAIRS) * ng * len(part)
         g2 = gaps[None, :]
-        checks = [
-            ("tiling-identity", True, eT + sF != g2),
-            ("tiling-identity", False, eF + sT != g2),
-            ("offset-outside-interval", True, (eT < 0) | (eT > g2) | (sF < 0) | (sF > g2)),
-            ("offset-outside-interval", False, (eF < 0) | (eF > g2) | (sT < 0) | (sT > g2)),
-        ]
+        fl = ce = None
         if share_ref:
             lines = ["share %d %d 0 %d" % (frac_of(f) + (G_MAX,)) for f in part]
             ref = np.array([np.array(r.split(), dtype=np.int64) for r in drv.run(lines)])
             fl, ce = ref[:, 0::2], ref[:, 1::2]
-            # earlier measurement larger-or-equal (next condition False): it receives eF days
-            checks.append(("share", False, (eF < fl) | (eF > ce)))
-            # later measurement larger (next condition True, its previous condition False): sF days
-            checks.append(("share", True, (sF < fl) | (sF > ce)))
-            n_nontrivial += 2 * int((fl != ce).sum())
-            n_float_vs_exact += int((eF != fl).sum()) + int((sF != ce).sum())
-        for kind, c, bad in checks:
-            if bad.any():
-                ctx.count(f"{label}_failing_triples", int(bad.sum()))
-                for (fi, gi) in np.argwhere(bad)[:40]:  # a sample; the total is counted above
-                    failing.append((float(part[fi]), int(gaps[gi]), c, kind))
+            n_nontrivial += len(combos) * int((fl != ce).sum())
+        for k, c in enumerate(combos):
+            ek, sk = e[:, k, :], st[:, k, :]
+            checks = [("tiling-identity", ek + sk != g2),
+                      ("offset-outside-interval", (ek < 0) | (ek > g2) | (sk < 0) | (sk > g2))]
+            pair_for = {"tiling-identity": reps[c][0], "offset-outside-interval": reps[c][0]}
+            if share_ref:
+                earlier_larger = [p for p in reps[c] if p[0] >= p[1]]
+                later_larger = [p for p in reps[c] if p[0] < p[1]]
+                if earlier_larger:      # the earlier measurement (larger or equal) receives its end offset
+                    checks.append(("share-earlier", (ek < fl) | (ek > ce)))
+                    pair_for["share-earlier"] = earlier_larger[0]
+                    n_float_vs_exact += int((ek != fl).sum())
+                if later_larger:        # the later, larger measurement receives its start offset
+                    checks.append(("share-later", (sk < fl) | (sk > ce)))
+                    pair_for["share-later"] = later_larger[0]
+                    n_float_vs_exact += int((sk != ce).sum())
+            for kind, bad in checks:
+                if bad.any():
+                    ctx.count(f"{label}_failing_triples", int(bad.sum()))
+                    for (fi, gi) in np.argwhere(bad)[:40]:  # a sample; the total is counted above
+                        failing.append((float(part[fi]), int(gaps[gi]), pair_for[kind], kind.split("-")[0] if kind.startswith("share") else kind))
     ctx.nontrivial.extra += n_nontrivial
     ctx.count(f"{label}_factors", len(fs))
-    ctx.count(f"{label}_triples_f_gap_ordering", 2 * (G_MAX + 1) * len(fs))
+    ctx.count(f"{label}_triples_f_gap_ratepair", len(RATE_PAIRS) * (G_MAX + 1) * len(fs))
+    ctx.count(f"{label}_distinct_condition_combinations", len(combos))
     ctx.count(f"{label}_float_offset_differs_from_exact_rational", n_float_vs_exact)
     return failing
 
@@ -552,6 +678,7 @@ def report_failing(ctx, failing, label):
     ctx.extra["failing_triples_sample"] += [list(x) for x in failing[:10]]
     seen = {}
     for (f, g, c, kind) in failing:
+        c = tuple(c)
         seen.setdefault((kind, c), [])
         if len(seen[(kind, c)]) < 3:
             seen[(kind, c)].append((f, g))
@@ -559,10 +686,11 @@ def report_failing(ctx, failing, label):
         for (f, g) in lst:
             case = failing_pair_table(f, g, c)
             impl = W.impl_report(case)
+            attach_dates(case, impl)
             n = oracle_table(ctx, case, impl, origin=f"{label}:{kind}")
             if n == 0:
                 ctx.broke(f"float confrontation {kind}",
-                          f"helpers fail {kind} for f={f!r} gap={g} ordering={c} but the table oracle "
+                          f"helpers fail {kind} for f={f!r} gap={g} rates={c} but the table oracle "
                           f"accepts the windows of {case}")
 
 
@@ -667,10 +795,11 @@ def wholerun_configs(ctx, n):
 # generator never varies and boundary values.  Tags that change what feeds the inventory: the factor itself
 # (estimate: 0 / 0.001), how long / how often / when surveys happen (workday, freq, months, years, crews,
 # coverage), what is tagged and repaired when (delays, repairs) and the number of simulations (sims).
-WIDE_TAGS = ["estimate", "workday", "freq", "months", "years", "delays", "crews", "coverage", "repairs", "sims"]
+WIDE_TAGS = ["estimate", "workday", "freq", "months", "years", "delays", "crews", "coverage", "repairs", "sims",
+             "fractional", "sims-batch"]
 WIDE_PLAN_QUICK = [["estimate"], True]
 WIDE_PLAN_THOROUGH = [["estimate"], ["estimate", "sims"], ["workday"], ["freq", "months"], ["years", "delays"],
-                      ["crews"], ["coverage"], ["repairs", "sims"], WIDE_TAGS, True, True]
+                      ["crews"], ["coverage"], ["repairs", "sims"], ["fractional"], ["sims-batch"], WIDE_TAGS, True]
 
 
 def wholerun_wide_configs(ctx):
@@ -684,6 +813,76 @@ def wholerun_wide_configs(ctx):
         cfg["_c13_wide"] = "all" if wide is True else list(wide)
         cfgs.append(cfg)
     return cfgs
+
+
+def near_tie_config(ctx, i):
+    """rates whose sums depend on the order of accumulation (0.1 + 0.2 + 0.3 = 0.6 in one flat sum,
+    0.6000000000000001 when accumulated component by component), measured without quantification error
+    by a site-level screening and a component-level follow-up / survey of the same unrepaired emissions"""
+    from harness import wholerun as WR
+    cfg = WR.make_config(ctx.rng, duration_method="measurement-based", duration_factor=[1.0, 0.0, 0.3, 0.7][i % 4],
+                         n_sims=1, ndays=ctx.rng.choice([120, 200]), granular=True)
+    cfg["rates"] = [0.1, 0.2, 0.3, 0.1, 0.2, 0.3]
+    cfg["rep"] = dict(cfg["rep"], epr=0.03125, duration=365, multi=True)
+    cfg["repair_delay"] = [60]                 # leaks stay while the next method measures them
+    for name, m in cfg["methods"].items():
+        m["qe"] = [0.0, 0.0]
+        m["mdl"] = 0.0078125
+        m["spatial"] = 1.0
+        m["temporal"] = 1.0
+        m["months"] = list(range(1, 13))
+        fu = m.get("follow_up")
+        if fu and m["deployment_type"] == "mobile":
+            fu.update({"threshold": 0.0, "proportion": 1.0, "delay": 0, "instant_threshold": None})
+    cfg["methods"]["AIR"]["surveys_per_year"] = 12
+    cfg["methods"]["OGI"]["surveys_per_year"] = 6
+    # one program in which a site-level and a component-level method both report the site's rate
+    names = [p["name"] for p in cfg["programs"]]
+    if "P_mix" not in names:
+        cfg["programs"].append({"name": "P_mix", "methods": ["AIR", "OGI_FU", "OGI"]})
+    cfg["_c13_near_tie"] = True
+    return cfg
+
+
+def count_near_ties(ctx, res):
+    """neighbouring measurements in the written files that differ by less than 1e-8 without being equal"""
+    for prog in res.programs:
+        for sim in range(res.n_sims):
+            rows = res.estimated(prog, sim) or []
+            for a, b in zip(rows, rows[1:]):
+                if a[COL_SITE] != b[COL_SITE]:
+                    continue
+                try:
+                    ra, rb = float(a[COL_RATE]), float(b[COL_RATE])
+                except ValueError:
+                    continue
+                if ra != rb and abs(ra - rb) <= 1e-8:
+                    ctx.count("wholerun_neighbouring_measurements_equal_up_to_rounding")
+                elif ra == rb and ra != 0.0:
+                    ctx.count("wholerun_neighbouring_measurements_exactly_equal_nonzero")
+
+
+def history_runs(ctx, n):
+    """the generic "history" shape: the configuration asked for, run in a folder in which an earlier run
+    with ONE defining leaf changed has left its generator and output folders; every oracle applies to the
+    second run against ITS configuration"""
+    import random as _r
+    from harness import wholerun as WR
+    jobs = []
+    seen = set()
+    tries = 0
+    while len(jobs) < n and tries < 60:
+        tries += 1
+        mode = ["measurement-based", "component-based"][len(jobs) % 2]
+        cfg = WR.make_config(ctx.rng, duration_method=mode, duration_factor=ctx.rng.choice(WR_FACTORS), n_sims=1,
+                             ndays=ctx.rng.choice([120, 200]), n_sites=ctx.rng.randint(4, 6))
+        prev, what = WR.prev_variant(cfg, _r.Random(ctx.rng.randrange(1 << 30)))
+        if what in seen:
+            continue
+        seen.add(what)
+        cfg["_c13_history"] = what
+        jobs.append((prev, cfg, what))
+    return jobs
 
 
 def json_short(x):
@@ -907,7 +1106,10 @@ def wholerun_stage(ctx):
     corpus = wholerun_corpus()
     ctx.count("wholerun_corpus_configs", len(corpus))
     wide_cfgs = wholerun_wide_configs(ctx)
-    cfgs = corpus + wholerun_configs(ctx, ctx.pick(2, 10)) + wide_cfgs
+    near_cfgs = [near_tie_config(ctx, i) for i in range(ctx.pick(1, 4))]
+    hist_jobs = history_runs(ctx, ctx.pick(1, 4))
+    cfgs = corpus + wholerun_configs(ctx, ctx.pick(2, 8)) + wide_cfgs + near_cfgs
+    ctx.count("wholerun_near_tie_configs", len(near_cfgs))
     for c in wide_cfgs:
         ctx.count("wholerun_wide_configs")
         if c["_c13_wide"] == "all":
@@ -956,8 +1158,15 @@ def wholerun_stage(ctx):
 
     with cf.ThreadPoolExecutor(max_workers=min(8, len(cfgs) + len(mode_cfgs))) as ex:
         mode_futs = [ex.submit(mode_job, m) for m in mode_cfgs]
+        hist_futs = [ex.submit(lambda j: WR.run_after(j[0], j[1], debug=True, trace=True), j) for j in hist_jobs]
         allres = list(ex.map(lambda c: WR.run_config(c, debug=True, trace=True), cfgs))
         mode_out = [f.result() for f in mode_futs]
+        hist_res = [f.result() for f in hist_futs]
+    for (prev, cfg_h, what), r in zip(hist_jobs, hist_res):
+        ctx.count("history:" + what)
+        if r.prev_rc != 0:
+            ctx.count("history_first_run_stopped")
+    allres = allres + hist_res
     results = allres
     try:
         for mcfg, runs in zip(mode_cfgs, mode_out):
@@ -1007,6 +1216,7 @@ def wholerun_stage(ctx):
             ctx.count("wholerun_configs_" + res.cfg["duration_method"])
             oracle_wholerun(ctx, res)
             oracle_to_remove(ctx, res)
+            count_near_ties(ctx, res)
             ctx.traces += 1
         if results and results[0].rc == 0:
             r0 = results[0]
@@ -1290,8 +1500,15 @@ def run(ctx):
             run_tables(ctx, cases[j:j + 500], exact=True, origin="random_exact", style_rng=rng)
         for c in cases[:2]:
             ctx.sample({"table_case": [c[0], c[1], c[2], c[3], c[4], [list(r) for r in c[5]][:8]]})
+        # measurements that are ties up to rounding (1 ulp ... 1e-6, both signs) next to exact ties
+        nt_fs = [1.0, 0.0, 0.25] if ctx.quick else [1.0, 0.0, 0.25, 0.75, 0.5, 0.375]
+        run_tables(ctx, list(near_tie_core(nt_fs)), exact=True, origin="near_tie_core", style_rng=rng)
+        cases = [near_tie_table(rng, dyadic_factor(rng)) for _ in range(ctx.pick(40, 400))]
+        run_tables(ctx, cases, exact=True, origin="near_tie_exact", style_rng=rng)
 
     def st_tables_float():
+        cases = [near_tie_table(rng, float_factor(rng)) for _ in range(ctx.pick(30, 300))]
+        run_tables(ctx, cases, exact=False, origin="near_tie_float", style_rng=rng)
         # whole tables, arbitrary doubles: oracle on the implementation
         cases = [random_table(rng, float_factor(rng), big=(i % 25 == 0), boundary=(i % 3 == 1)) for i in range(n_rand)]
         for j in range(0, len(cases), 500):
